@@ -45,7 +45,23 @@ func (w *BitWriter) BitLen() int64 { return w.n }
 func (w *BitWriter) Bytes() []byte { return append([]byte{}, w.buf...) }
 
 // Tok is a literal (Lit 0..255, Len 0) or a match (Lit -1, Len 3..258, Dist 1..32768).
-type Tok struct{ Lit, Len, Dist int }
+//
+// Alt selects the other way of writing length 258: symbol 284 with extra bits
+// 31 (227+31) instead of symbol 285. RFC 1951 assigns 258 to symbol 285, but
+// zlib, compress/flate and every inflater derived from them decode 284+31 as
+// 258 as well, so a stream may contain it.
+type Tok struct {
+	Lit, Len, Dist int
+	Alt            bool
+}
+
+// TokLenSym is LenSym for a token, honouring Alt.
+func TokLenSym(t Tok) (sym int, extraBits int, extraVal uint32) {
+	if t.Alt && t.Len == 258 {
+		return 284, 5, 31
+	}
+	return LenSym(t.Len)
+}
 
 func Lit(b byte) Tok             { return Tok{Lit: int(b)} }
 func Match(length, dist int) Tok { return Tok{Lit: -1, Len: length, Dist: dist} }
@@ -219,7 +235,7 @@ func (s *SymWriter) Tok(t Tok) error {
 		}
 		return s.LitLenSym(t.Lit)
 	}
-	ls, lb, lv := LenSym(t.Len)
+	ls, lb, lv := TokLenSym(t)
 	ds, db, dv := DistSym(t.Dist)
 	if ds >= len(s.Dist.Len) || s.Dist.Len[ds] == 0 {
 		return fmt.Errorf("synth: distance symbol %d has no code", ds)
@@ -300,6 +316,7 @@ type DynOptions struct {
 	CrossBoundary bool // with UseRepeat: let a run span the literal/distance boundary (legal per RFC)
 	HLit, HDist   int  // number of litlen (257..286) / dist (1..30) codes to declare; 0 = minimal
 	FullHCLEN     bool // declare all 19 code-length codes instead of trimming trailing zeros
+	WorstCL       bool // the most wasteful complete code-length code: 7 bits for every length value used
 }
 
 // CLSym is a code-length symbol (0..18) with the value of its extra bits.
@@ -390,11 +407,83 @@ func RLE(lens []uint8, useRepeat bool, breaks ...int) []CLSym {
 // complete); all 19 of its lengths are sent if full, else trailing zeros in
 // transmission order are trimmed. seq itself is not checked in any way.
 func HeaderSeq(w *BitWriter, final bool, nlit, ndist int, seq []CLSym, full bool) {
+	HeaderSeqCL(w, final, nlit, ndist, seq, full, false)
+}
+
+// WorstCLCode returns a complete code-length code in which every symbol with
+// a non-zero frequency has the longest code possible (7 bits where the Kraft
+// budget allows) and the short codes go to symbols that are never used: the
+// encoding that makes a dynamic header as long as the format permits (up to
+// 17 + 19*3 + 316*7 bits = 286 bytes).
+func WorstCLCode(freq []int) []uint8 {
+	cl := make([]uint8, 19)
+	type sf struct{ s, f int }
+	var used []sf
+	for s, f := range freq {
+		if f > 0 {
+			used = append(used, sf{s, f})
+		}
+	}
+	// rarest first: they are shortened first when the unused symbols cannot absorb the budget
+	for i := range used {
+		for j := i + 1; j < len(used); j++ {
+			if used[j].f < used[i].f {
+				used[i], used[j] = used[j], used[i]
+			}
+		}
+	}
+	for _, u := range used {
+		cl[u.s] = 7
+	}
+	for round := 0; round < 200; round++ {
+		units := 0 // Kraft sum in units of 2^-7
+		var unused []int
+		for s, l := range cl {
+			if l > 0 {
+				units += 1 << (7 - l)
+			} else {
+				unused = append(unused, s)
+			}
+		}
+		rest := 128 - units
+		need := 0
+		for b := 0; b < 7; b++ {
+			if rest>>b&1 == 1 {
+				need++
+			}
+		}
+		if rest >= 0 && need <= len(unused) {
+			k := 0
+			for b := 6; b >= 0; b-- {
+				if rest>>b&1 == 1 {
+					cl[unused[k]] = uint8(7 - b)
+					k++
+				}
+			}
+			return cl
+		}
+		// shorten the rarest used symbol that can still be shortened
+		for _, u := range used {
+			if cl[u.s] > 1 {
+				cl[u.s]--
+				break
+			}
+		}
+	}
+	return LensFromFreq(freq, 7)
+}
+
+// HeaderSeqCL is HeaderSeq with the choice of the code-length code: the
+// Huffman code of the symbols of seq, or (worst) WorstCLCode.
+func HeaderSeqCL(w *BitWriter, final bool, nlit, ndist int, seq []CLSym, full, worst bool) {
 	freq := make([]int, 19)
 	for _, s := range seq {
 		freq[s.Sym]++
 	}
 	cl := LensFromFreq(freq, 7)
+	if worst {
+		cl = WorstCLCode(freq)
+	}
 	for i := 0; Classify(cl) == "single" || Classify(cl) == "empty"; i++ {
 		if cl[i] == 0 { // make the code-length code complete
 			cl[i] = 1
@@ -449,7 +538,7 @@ func DynamicHeader(w *BitWriter, final bool, litLens, distLens []uint8, opt DynO
 	} else {
 		seq = RLE(all, opt.UseRepeat)
 	}
-	HeaderSeq(w, final, nlit, ndist, seq, opt.FullHCLEN)
+	HeaderSeqCL(w, final, nlit, ndist, seq, opt.FullHCLEN, opt.WorstCL)
 	return NewSymWriter(w, pad(litLens, nlit), pad(distLens, ndist)), nil
 }
 
